@@ -3,7 +3,7 @@
    input with each target replaced) is decided by the model/implementation correspondence and the independent oracle. *)
 From Coq Require Import List NArith Bool Arith.
 Import ListNotations.
-From Adeu Require Import Str Doc Trim ParaMachine Project DocOps Inst Engine TrimProofs ReviewProofs ProjProofs EngineProofs.
+From Adeu Require Import Str Doc Trim ParaMachine Project DocOps Inst Engine TrimProofs ReviewProofs ProjProofs MatchProofs EngineProofs.
 
 (* context trimming never trims more than the two texts share, for EVERY pair of texts and every isspace:
    p + s <= min(|t|,|n|), the first p characters agree, the last s characters agree - so replacing t[p..|t|-s) by n[p..|n|-s)
@@ -26,3 +26,32 @@ Theorem C02_patch_only : forall d author ts edits orc,
 Proof. intros d author ts edits orc. pose proof (engine_contract d author ts edits orc) as H. cbn zeta in *.
   destruct (apply_edits d author ts edits orc) as [[[[d' ap] sk] out] nn]. exact (proj1 H). Qed.
 Print Assumptions C02_patch_only.
+
+(* where an exactly quoted target is looked up (fixes D54, D55): at its FIRST occurrence in the projected text that touches text of
+   the document itself and no tracked deletion - the target stands there, at least one character position of a span with a run is
+   covered, no covered span is deleted text, and every earlier occurrence lies wholly in generated text (comment / change metadata,
+   markers, separators) or reaches into a deletion (touches_real false) *)
+Theorem C02_exact_match_on_document_text : forall sp t i, find_on sp t = Some i ->
+  firstn (length t) (skipn i (map_text sp)) = t
+  /\ (exists x, In x sp /\ o_real x = true /\ i < o_end x /\ o_start x < i + length t)
+  /\ (forall x, In x sp -> o_real x = true -> i < o_end x -> o_start x < i + length t -> is_some_nonempty (o_del x) = false)
+  /\ (forall k, k < i -> prefixb t (skipn k (map_text sp)) = true -> touches_real sp k (k + length t) = false).
+Proof. exact find_on_spec. Qed.
+Print Assumptions C02_exact_match_on_document_text.
+
+(* ... and when the exact stage reports nothing, every occurrence of the target lies wholly in generated text or reaches into a
+   tracked deletion *)
+Theorem C02_no_exact_match_only_generated : forall sp t k, find_on sp t = None -> k <= length (map_text sp) ->
+  prefixb t (skipn k (map_text sp)) = true -> touches_real sp k (k + length t) = false.
+Proof. exact find_on_none. Qed.
+Print Assumptions C02_no_exact_match_only_generated.
+
+(* such a match is what the edit is applied to: the raw map, that position, no approximate answer consulted *)
+Theorem C02_exact_match_used : forall s t orc i, find_on (s_raw s) t = Some i -> locate s t orc = (Some (i, length t), false, s, orc).
+Proof. exact locate_exact. Qed.
+Print Assumptions C02_exact_match_used.
+
+(* the range the exact stage reports lies inside the projected text *)
+Theorem C02_exact_match_in_range : forall sp t i, find_on sp t = Some i -> i + length t <= length (map_text sp).
+Proof. exact find_on_in_range. Qed.
+Print Assumptions C02_exact_match_in_range.
